@@ -91,7 +91,29 @@ def completionOrder (log : List Ev) : List Nat :=
     | .ret t true => some t
     | _ => none
 
+/-- the `x …` cases: behaviour of the `Weak` references after the executor is gone, and `spawn_pinned` -/
+def runExtra (name : String) : String :=
+  let sh (e : Option State) : String := match e with | some s => s!"queued{s.queue.length}" | none => "refused"
+  match name with
+  | "wake-after-drop" =>
+    -- one task blocked on a channel; the executor is dropped; its waker is woken twice
+    let s := stepN 1 (init false [[.wait 0]] 1)
+    let e := wakeWeak (wakeWeak none 0) 0
+    s!"wc={s.queue.length} after-drop={if e.isNone then "discarded" else "enqueued"}\tok"
+  | "dead-spawner" => s!"spawn={sh (spawnWeak none [])} pinned={sh (spawnWeak none [])}\tok"
+  | "spawner-after-drop" =>
+    let live := spawnWeak (some (init false [] 0)) []
+    s!"before={sh live} spawn={sh (spawnWeak none [])} pinned={sh (spawnWeak none [])}\tok"
+  | "spawn-pinned" =>
+    -- Executor::spawn_pinned, Spawner::spawn_pinned, Executor::spawn: polled in FIFO order
+    let s0 := (spawnWeak (spawnWeak (spawnWeak (some (init false [] 0)) [.yield]) []) []).getD {}
+    let r := runUntilStalled 100 s0 0
+    let polls := r.1.log.filterMap fun | .poll t => some (toString t) | _ => none
+    s!"wc={s0.queue.length} polls={".".intercalate polls} compl={r.2.1}\tok"
+  | _ => "bad-case\t-"
+
 def runLine (line : String) : String :=
+  if line.startsWith "x " then runExtra (line.drop 2).trimAscii.toString else
   match line.splitOn ":" with
   | [hd, body] =>
     match words hd with
